@@ -282,3 +282,486 @@ Proof.
     end; inv H; shapes; cbn in *; wf_facts.
   all: split; [unfold judge_C20_send; cbn; eqbs; reflexivity | split; [wf_goal | lia]].
 Qed.
+
+(* ================================================================== TCPBackend.Send *)
+Lemma bloop_cached n c w tr :
+  tcp_backend_send_loop (S n) (Some c) w tr =
+  if next_write c w then (Some c, after_write c w, tr ++ [EWrite c true], true)
+  else tcp_backend_send_loop n None (after_write c w) (tr ++ [EWrite c false; EClose c]).
+Proof. cbn [tcp_backend_send_loop]. rewrite w_write_eq. reflexivity. Qed.
+
+(* a refused dial does not abort: the loop goes on to its next iteration *)
+Lemma bloop_none n w tr :
+  tcp_backend_send_loop (S n) None w tr =
+  match snd (w_dial w) with
+  | Some c => tcp_backend_send_loop (S n) (Some c) (after_dial w) (tr ++ [EDial (Some c)])
+  | None => tcp_backend_send_loop n None (after_dial w) (tr ++ [EDial None])
+  end.
+Proof.
+  cbn [tcp_backend_send_loop]. rewrite w_dial_eq.
+  destruct (snd (w_dial w)) as [c|]; cbn [snd fst]; reflexivity.
+Qed.
+
+Inductive bshape : nat -> option nat -> nat -> option nat -> nat -> list io_event -> bool -> Prop :=
+| bs_zero conn n : bshape 0 conn n conn n [] false
+| bs_ok k c n : bshape (S k) (Some c) n (Some c) n [EWrite c true] true
+| bs_fail k c n conn' n' tr ok :
+    bshape k None n conn' n' tr ok ->
+    bshape (S k) (Some c) n conn' n' ([EWrite c false; EClose c] ++ tr) ok
+| bs_refused k n conn' n' tr ok :
+    bshape k None n conn' n' tr ok -> bshape (S k) None n conn' n' (EDial None :: tr) ok
+| bs_dial k n conn' n' tr ok :
+    bshape (S k) (Some n) (S n) conn' n' tr ok ->
+    bshape (S k) None n conn' n' (EDial (Some n) :: tr) ok.
+
+Lemma bloop_shape k : forall conn w tr0 conn' w' tr' ok,
+  tcp_backend_send_loop k conn w tr0 = (conn', w', tr', ok) ->
+  exists ext, tr' = tr0 ++ ext /\ bshape k conn (w_next w) conn' (w_next w') ext ok.
+Proof.
+  induction k as [|k IH]; intros conn w tr0 conn' w' tr' ok H.
+  - cbn in H. inv H. exists []. rewrite app_nil_r. split; [reflexivity|constructor].
+  - destruct conn as [c|].
+    + rewrite bloop_cached in H. destruct (next_write c w).
+      * inv H. exists [EWrite c true]. split; [reflexivity|]. rewrite after_write_next. constructor.
+      * apply IH in H. destruct H as [ext [-> Hs]]. rewrite after_write_next in Hs.
+        exists ([EWrite c false; EClose c] ++ ext). rewrite <- app_assoc.
+        split; [reflexivity|]. constructor. exact Hs.
+    + rewrite bloop_none in H. destruct (w_dial_cases w) as [[E En]|[E En]]; rewrite E in H.
+      * apply IH in H. destruct H as [ext [-> Hs]]. rewrite En in Hs.
+        exists (EDial None :: ext). rewrite <- app_assoc. split; [reflexivity|]. constructor. exact Hs.
+      * rewrite bloop_cached in H. destruct (next_write (w_next w) (after_dial w)).
+        -- inv H. exists [EDial (Some (w_next w)); EWrite (w_next w) true]. rewrite <- app_assoc.
+           split; [reflexivity|]. rewrite after_write_next, En. apply bs_dial. constructor.
+        -- apply IH in H. destruct H as [ext [-> Hs]]. rewrite after_write_next, En in Hs.
+           exists (EDial (Some (w_next w)) :: [EWrite (w_next w) false; EClose (w_next w)] ++ ext).
+           rewrite <- !app_assoc. split; [reflexivity|]. apply bs_dial. constructor. exact Hs.
+Qed.
+
+Definition b_wf (conn : option nat) (n : nat) : Prop := forall c, conn = Some c -> c < n.
+
+Theorem backend_send_spec conn w conn' w' tr ok :
+  b_wf conn (w_next w) -> tcp_backend_send conn w = (conn', w', tr, ok) ->
+  judge_C20_send tr ok = true /\ b_wf conn' (w_next w') /\ w_next w <= w_next w'.
+Proof.
+  unfold b_wf, tcp_backend_send. intros Hc H. apply bloop_shape in H.
+  destruct H as [ext [-> Hs]]. cbn [app].
+  destruct conn as [c|]; wf_facts;
+    repeat match goal with H : bshape _ _ _ _ _ _ _ |- _ => inv H end.
+  all: split; [unfold judge_C20_send; cbn; eqbs; reflexivity
+              | split; [intros ? Heq; try discriminate Heq; inv Heq; lia | lia]].
+Qed.
+
+(* ================================================================== C20_judged_* *)
+Theorem C20_judged_client : forall f w,
+  fo_wf f (w_next w) ->
+  let '(_, _, tr, ok) := failover_send f w in judge_C20_send tr ok = true.
+Proof.
+  intros f w Hwf. destruct (failover_send f w) as [[[f' w'] tr] ok] eqn:E.
+  exact (proj1 (failover_send_spec _ _ _ _ _ _ Hwf E)).
+Qed.
+
+Theorem C20_judged_backend : forall conn w,
+  b_wf conn (w_next w) ->
+  let '(_, _, tr, ok) := tcp_backend_send conn w in judge_C20_send tr ok = true.
+Proof.
+  intros conn w Hwf. destruct (tcp_backend_send conn w) as [[[c' w'] tr] ok] eqn:E.
+  exact (proj1 (backend_send_spec _ _ _ _ _ _ Hwf E)).
+Qed.
+
+(* the well-formedness is an invariant of a send *)
+Theorem C20_wf_preserved_client : forall f w f' w' tr ok,
+  fo_wf f (w_next w) -> failover_send f w = (f', w', tr, ok) ->
+  fo_wf f' (w_next w') /\ w_next w <= w_next w'.
+Proof. intros f w f' w' tr ok Hwf E. exact (proj2 (failover_send_spec _ _ _ _ _ _ Hwf E)). Qed.
+
+Theorem C20_wf_preserved_backend : forall conn w conn' w' tr ok,
+  b_wf conn (w_next w) -> tcp_backend_send conn w = (conn', w', tr, ok) ->
+  b_wf conn' (w_next w') /\ w_next w <= w_next w'.
+Proof. intros conn w c' w' tr ok Hwf E. exact (proj2 (backend_send_spec _ _ _ _ _ _ Hwf E)). Qed.
+
+Theorem C20_judged_client_seq : forall k f w,
+  fo_wf f (w_next w) -> judge_C20 (failover_sends k f w) = true.
+Proof.
+  induction k as [|k IH]; intros f w Hwf; [reflexivity|].
+  cbn [failover_sends]. destruct (failover_send f w) as [[[f' w'] tr] ok] eqn:E.
+  destruct (failover_send_spec _ _ _ _ _ _ Hwf E) as (Hj & Hwf' & _).
+  cbn. rewrite Hj. apply IH. exact Hwf'.
+Qed.
+
+Theorem C20_judged_backend_seq : forall k conn w,
+  b_wf conn (w_next w) -> judge_C20 (backend_sends k conn w) = true.
+Proof.
+  induction k as [|k IH]; intros conn w Hwf; [reflexivity|].
+  cbn [backend_sends]. destruct (tcp_backend_send conn w) as [[[c' w'] tr] ok] eqn:E.
+  destruct (backend_send_spec _ _ _ _ _ _ Hwf E) as (Hj & Hwf' & _).
+  cbn. rewrite Hj. apply IH. exact Hwf'.
+Qed.
+
+(* the same along the schedule used by Run.run_sendfault: before each send the dial results
+   of that send are installed with [with_plan] *)
+Fixpoint client_traces (plans : list (list conn_script)) (f : failover) (w : world)
+  : list (list io_event * bool) :=
+  match plans with
+  | [] => []
+  | pl :: r => let '(f', w', tr, ok) := failover_send f (with_plan w pl) in
+               (tr, ok) :: client_traces r f' w'
+  end.
+Fixpoint backend_traces (plans : list (list conn_script)) (c : option nat) (w : world)
+  : list (list io_event * bool) :=
+  match plans with
+  | [] => []
+  | pl :: r => let '(c', w', tr, ok) := tcp_backend_send c (with_plan w pl) in
+               (tr, ok) :: backend_traces r c' w'
+  end.
+
+Theorem C20_judged_client_plans : forall plans f w,
+  fo_wf f (w_next w) -> judge_C20 (client_traces plans f w) = true.
+Proof.
+  induction plans as [|pl r IH]; intros f w Hwf; [reflexivity|].
+  cbn [client_traces]. destruct (failover_send f (with_plan w pl)) as [[[f' w'] tr] ok] eqn:E.
+  destruct (failover_send_spec _ (with_plan w pl) _ _ _ _ Hwf E) as (Hj & Hwf' & _).
+  cbn. rewrite Hj. apply IH. exact Hwf'.
+Qed.
+
+Theorem C20_judged_backend_plans : forall plans conn w,
+  b_wf conn (w_next w) -> judge_C20 (backend_traces plans conn w) = true.
+Proof.
+  induction plans as [|pl r IH]; intros conn w Hwf; [reflexivity|].
+  cbn [backend_traces]. destruct (tcp_backend_send conn (with_plan w pl)) as [[[c' w'] tr] ok] eqn:E.
+  destruct (backend_send_spec _ (with_plan w pl) _ _ _ _ Hwf E) as (Hj & Hwf' & _).
+  cbn. rewrite Hj. apply IH. exact Hwf'.
+Qed.
+
+(* ================================================================== success = written exactly once *)
+Definition no_okwrite (l : list io_event) : Prop := forall c, ~ In (EWrite c true) l.
+(* what a send appends to the trace, according to its verdict *)
+Definition ext_ok (ext : list io_event) (ok : bool) : Prop :=
+  if ok then exists pre c, ext = pre ++ [EWrite c true] /\ no_okwrite pre
+  else no_okwrite ext.
+
+Ltac nook := let c := fresh "c" in let H := fresh "H" in
+  intros c H; cbn in H; intuition discriminate.
+
+Lemma no_okwrite_app a b : no_okwrite a -> no_okwrite b -> no_okwrite (a ++ b).
+Proof. intros Ha Hb c Hin. apply in_app_or in Hin. destruct Hin; [eapply Ha|eapply Hb]; eassumption. Qed.
+
+Lemma ext_ok_prefix pre ext ok : no_okwrite pre -> ext_ok ext ok -> ext_ok (pre ++ ext) ok.
+Proof.
+  destruct ok; cbn; intros Hp He.
+  - destruct He as (mid & c & -> & Hm). exists (pre ++ mid), c. rewrite app_assoc.
+    split; [reflexivity|]. apply no_okwrite_app; assumption.
+  - apply no_okwrite_app; assumption.
+Qed.
+
+Lemma loop_ext n : forall t w tr0 t' w' tr' ok,
+  tcp_client_send_loop n t w tr0 = (t', w', tr', ok) ->
+  exists ext, tr' = tr0 ++ ext /\ ext_ok ext ok.
+Proof.
+  induction n as [|n IH]; intros t w tr0 t' w' tr' ok H.
+  - cbn in H. inv H. exists []. rewrite app_nil_r. split; [reflexivity|nook].
+  - destruct t as [[d|] rec].
+    + rewrite (loop_cached _ _ _ _ d) in H by reflexivity. destruct (next_write d w).
+      * inv H. exists [EWrite d true]. split; [reflexivity|]. exists [], d. split; [reflexivity|nook].
+      * apply IH in H. destruct H as (ext & -> & Hx). exists ([EWrite d false; EClose d] ++ ext).
+        rewrite <- app_assoc. split; [reflexivity|]. apply ext_ok_prefix; [nook|exact Hx].
+    + destruct rec.
+      * rewrite loop_none_rec in H by reflexivity. destruct (snd (w_dial w)) as [c|].
+        -- rewrite (loop_cached _ _ _ _ c) in H by reflexivity.
+           destruct (next_write c (after_dial w)).
+           ++ inv H. exists [EDial (Some c); EWrite c true]. rewrite <- app_assoc.
+              split; [reflexivity|]. exists [EDial (Some c)], c. split; [reflexivity|nook].
+           ++ apply IH in H. destruct H as (ext & -> & Hx).
+              exists ([EDial (Some c); EWrite c false; EClose c] ++ ext). rewrite <- !app_assoc.
+              split; [reflexivity|]. apply ext_ok_prefix; [nook|exact Hx].
+        -- inv H. exists [EDial None]. split; [reflexivity|nook].
+      * rewrite loop_norec in H. inv H. exists []. rewrite app_nil_r. split; [reflexivity|nook].
+Qed.
+
+Lemma bloop_ext n : forall conn w tr0 conn' w' tr' ok,
+  tcp_backend_send_loop n conn w tr0 = (conn', w', tr', ok) ->
+  exists ext, tr' = tr0 ++ ext /\ ext_ok ext ok.
+Proof.
+  induction n as [|n IH]; intros conn w tr0 conn' w' tr' ok H.
+  - cbn in H. inv H. exists []. rewrite app_nil_r. split; [reflexivity|nook].
+  - destruct conn as [d|].
+    + rewrite bloop_cached in H. destruct (next_write d w).
+      * inv H. exists [EWrite d true]. split; [reflexivity|]. exists [], d. split; [reflexivity|nook].
+      * apply IH in H. destruct H as (ext & -> & Hx). exists ([EWrite d false; EClose d] ++ ext).
+        rewrite <- app_assoc. split; [reflexivity|]. apply ext_ok_prefix; [nook|exact Hx].
+    + rewrite bloop_none in H. destruct (snd (w_dial w)) as [c|].
+      * rewrite bloop_cached in H. destruct (next_write c (after_dial w)).
+        -- inv H. exists [EDial (Some c); EWrite c true]. rewrite <- app_assoc.
+           split; [reflexivity|]. exists [EDial (Some c)], c. split; [reflexivity|nook].
+        -- apply IH in H. destruct H as (ext & -> & Hx).
+           exists ([EDial (Some c); EWrite c false; EClose c] ++ ext). rewrite <- !app_assoc.
+           split; [reflexivity|]. apply ext_ok_prefix; [nook|exact Hx].
+      * apply IH in H. destruct H as (ext & -> & Hx). exists ([EDial None] ++ ext).
+        rewrite <- app_assoc. split; [reflexivity|]. apply ext_ok_prefix; [nook|exact Hx].
+Qed.
+
+Lemma client_ext t w t' w' tr ok :
+  tcp_client_send t w = (t', w', tr, ok) -> ext_ok tr ok.
+Proof. intros H. apply loop_ext in H. destruct H as (ext & -> & Hx). exact Hx. Qed.
+
+(* no hypothesis at all on the state or the world *)
+Theorem failover_ext_ok f w f' w' tr ok :
+  failover_send f w = (f', w', tr, ok) -> ext_ok tr ok.
+Proof.
+  unfold failover_send. intros H.
+  destruct (fo_primary f) as [p|].
+  - destruct (tcp_client_send p w) as [[[p' w1] tr1] ok1] eqn:E1. apply client_ext in E1.
+    destruct ok1.
+    + inv H. exact E1.
+    + cbn [fo_secondary] in H. destruct (fo_secondary f) as [s|].
+      * destruct (tcp_client_send s w1) as [[[s' w2] tr2] ok2] eqn:E2. apply client_ext in E2.
+        inv H. apply ext_ok_prefix; assumption.
+      * inv H. exact E1.
+  - destruct (fo_secondary f) as [s|].
+    + destruct (tcp_client_send s w) as [[[s' w2] tr2] ok2] eqn:E2. apply client_ext in E2.
+      inv H. exact E2.
+    + inv H. nook.
+Qed.
+
+Theorem C20_success_means_written : forall f w f' w' tr,
+  failover_send f w = (f', w', tr, true) ->
+  exists pre c, tr = pre ++ [EWrite c true] /\ (forall c', ~ In (EWrite c' true) pre).
+Proof. intros f w f' w' tr H. exact (failover_ext_ok _ _ _ _ _ _ H). Qed.
+
+Theorem C20_error_means_unwritten : forall f w f' w' tr,
+  failover_send f w = (f', w', tr, false) -> forall c, ~ In (EWrite c true) tr.
+Proof. intros f w f' w' tr H. exact (failover_ext_ok _ _ _ _ _ _ H). Qed.
+
+Theorem C20_success_means_written_backend : forall conn w conn' w' tr,
+  tcp_backend_send conn w = (conn', w', tr, true) ->
+  exists pre c, tr = pre ++ [EWrite c true] /\ (forall c', ~ In (EWrite c' true) pre).
+Proof.
+  intros conn w conn' w' tr H. apply bloop_ext in H. destruct H as (ext & -> & Hx). exact Hx.
+Qed.
+
+Theorem C20_error_means_unwritten_backend : forall conn w conn' w' tr,
+  tcp_backend_send conn w = (conn', w', tr, false) -> forall c, ~ In (EWrite c true) tr.
+Proof.
+  intros conn w conn' w' tr H. apply bloop_ext in H. destruct H as (ext & -> & Hx). exact Hx.
+Qed.
+
+(* ================================================================== the world invariant along sends *)
+Lemma loop_wf n : forall t w tr0 t' w' tr' ok,
+  w_wf w -> tcp_client_send_loop n t w tr0 = (t', w', tr', ok) -> w_wf w'.
+Proof.
+  induction n as [|n IH]; intros t w tr0 t' w' tr' ok Hw H.
+  - cbn in H. inv H. exact Hw.
+  - destruct t as [[d|] rec].
+    + rewrite (loop_cached _ _ _ _ d) in H by reflexivity. destruct (next_write d w).
+      * inv H. apply after_write_wf, Hw.
+      * eapply IH; [|exact H]. apply after_write_wf, Hw.
+    + destruct rec.
+      * rewrite loop_none_rec in H by reflexivity. destruct (snd (w_dial w)) as [c|].
+        -- rewrite (loop_cached _ _ _ _ c) in H by reflexivity.
+           destruct (next_write c (after_dial w)).
+           ++ inv H. apply after_write_wf, after_dial_wf, Hw.
+           ++ eapply IH; [|exact H]. apply after_write_wf, after_dial_wf, Hw.
+        -- inv H. apply after_dial_wf, Hw.
+      * rewrite loop_norec in H. inv H. exact Hw.
+Qed.
+
+Lemma bloop_wf n : forall conn w tr0 conn' w' tr' ok,
+  w_wf w -> tcp_backend_send_loop n conn w tr0 = (conn', w', tr', ok) -> w_wf w'.
+Proof.
+  induction n as [|n IH]; intros conn w tr0 conn' w' tr' ok Hw H.
+  - cbn in H. inv H. exact Hw.
+  - destruct conn as [d|].
+    + rewrite bloop_cached in H. destruct (next_write d w).
+      * inv H. apply after_write_wf, Hw.
+      * eapply IH; [|exact H]. apply after_write_wf, Hw.
+    + rewrite bloop_none in H. destruct (snd (w_dial w)) as [c|].
+      * rewrite bloop_cached in H. destruct (next_write c (after_dial w)).
+        -- inv H. apply after_write_wf, after_dial_wf, Hw.
+        -- eapply IH; [|exact H]. apply after_write_wf, after_dial_wf, Hw.
+      * eapply IH; [|exact H]. apply after_dial_wf, Hw.
+Qed.
+
+Theorem failover_send_w_wf f w f' w' tr ok :
+  w_wf w -> failover_send f w = (f', w', tr, ok) -> w_wf w'.
+Proof.
+  unfold failover_send, tcp_client_send. intros Hw H.
+  destruct (fo_primary f) as [p|].
+  - destruct (tcp_client_send_loop 2 p w []) as [[[p' w1] tr1] ok1] eqn:E1.
+    apply loop_wf in E1; [|exact Hw]. destruct ok1.
+    + inv H. exact E1.
+    + cbn [fo_secondary] in H. destruct (fo_secondary f) as [s|].
+      * destruct (tcp_client_send_loop 2 s w1 []) as [[[s' w2] tr2] ok2] eqn:E2.
+        apply loop_wf in E2; [|exact E1]. inv H. exact E2.
+      * inv H. exact E1.
+  - destruct (fo_secondary f) as [s|].
+    + destruct (tcp_client_send_loop 2 s w []) as [[[s' w2] tr2] ok2] eqn:E2.
+      apply loop_wf in E2; [|exact Hw]. inv H. exact E2.
+    + inv H. exact Hw.
+Qed.
+
+Theorem backend_send_w_wf conn w conn' w' tr ok :
+  w_wf w -> tcp_backend_send conn w = (conn', w', tr, ok) -> w_wf w'.
+Proof. intros Hw H. eapply bloop_wf; [exact Hw|exact H]. Qed.
+
+Lemma with_plan_wf w pl : w_wf w -> w_wf (with_plan w pl).
+Proof. intros H. exact H. Qed.
+
+(* ================================================================== decomposition of FailOver.Send *)
+Lemma client_cached_ok t c w :
+  tc_conn t = Some c -> next_write c w = true ->
+  tcp_client_send t w = (t, after_write c w, [EWrite c true], true).
+Proof.
+  intros Hc Hn. unfold tcp_client_send. rewrite (loop_cached _ _ _ _ c) by exact Hc.
+  rewrite Hn. reflexivity.
+Qed.
+
+Lemma client_norec_fail t c w :
+  tc_conn t = Some c -> tc_reconnectable t = false -> next_write c w = false ->
+  tcp_client_send t w =
+  ({| tc_conn := None; tc_reconnectable := false |}, after_write c w, [EWrite c false; EClose c], false).
+Proof.
+  intros Hc Hr Hn. unfold tcp_client_send. rewrite (loop_cached _ _ _ _ c) by exact Hc.
+  rewrite Hn, Hr, loop_norec. reflexivity.
+Qed.
+
+Lemma failover_primary_none f w :
+  fo_primary f = None ->
+  failover_send f w =
+  match fo_secondary f with
+  | Some s => let '(s', w2, tr2, ok) := tcp_client_send s w in
+              ({| fo_primary := None; fo_secondary := Some s' |}, w2, tr2, ok)
+  | None => (f, w, [], false)
+  end.
+Proof.
+  intros H. unfold failover_send. rewrite H. destruct (fo_secondary f) as [s|]; [|reflexivity].
+  destruct (tcp_client_send s w) as [[[s' w2] tr2] ok]. rewrite H. reflexivity.
+Qed.
+
+Lemma failover_primary_ok f w p c :
+  fo_primary f = Some p -> tc_conn p = Some c -> next_write c w = true ->
+  failover_send f w =
+  ({| fo_primary := Some p; fo_secondary := fo_secondary f |}, after_write c w, [EWrite c true], true).
+Proof.
+  intros Hp Hc Hn. unfold failover_send. rewrite Hp, (client_cached_ok _ _ _ Hc Hn). reflexivity.
+Qed.
+
+Lemma failover_primary_fail f w p c :
+  fo_primary f = Some p -> tc_conn p = Some c -> tc_reconnectable p = false ->
+  next_write c w = false ->
+  failover_send f w =
+  match fo_secondary f with
+  | Some s => let '(s', w2, tr2, ok) := tcp_client_send s (after_write c w) in
+              ({| fo_primary := None; fo_secondary := Some s' |}, w2,
+               [EWrite c false; EClose c] ++ tr2, ok)
+  | None => ({| fo_primary := None; fo_secondary := None |}, after_write c w,
+             [EWrite c false; EClose c], false)
+  end.
+Proof.
+  intros Hp Hc Hr Hn. unfold failover_send. rewrite Hp, (client_norec_fail _ _ _ Hc Hr Hn).
+  cbn [fo_secondary fo_primary]. destruct (fo_secondary f) as [s|]; reflexivity.
+Qed.
+
+(* ---- one iteration that has to dial ---- *)
+Lemma after_dial_some_next w s rest :
+  w_dials w = Some s :: rest -> w_next (after_dial w) = S (w_next w) /\ w_dials (after_dial w) = rest.
+Proof. intros H. unfold after_dial. rewrite (w_dial_some _ _ _ H). split; reflexivity. Qed.
+
+Lemma snd_dial_some w s rest : w_dials w = Some s :: rest -> snd (w_dial w) = Some (w_next w).
+Proof. intros H. rewrite (w_dial_some _ _ _ H). reflexivity. Qed.
+
+Lemma loop_dial_ok n w tr s rest :
+  w_wf w -> w_dials w = Some s :: rest -> hd true s = true ->
+  tcp_client_send_loop (S n) {| tc_conn := None; tc_reconnectable := true |} w tr =
+  ({| tc_conn := Some (w_next w); tc_reconnectable := true |},
+   after_write (w_next w) (after_dial w), tr ++ [EDial (Some (w_next w)); EWrite (w_next w) true], true).
+Proof.
+  intros Hw Hd Hs. rewrite loop_none_rec by reflexivity. rewrite (snd_dial_some _ _ _ Hd).
+  rewrite (loop_cached _ _ _ _ (w_next w)) by reflexivity.
+  rewrite (next_write_fresh _ _ _ Hw Hd), Hs, <- app_assoc. reflexivity.
+Qed.
+
+Lemma loop_dial_fail n w tr s rest :
+  w_wf w -> w_dials w = Some s :: rest -> hd true s = false ->
+  tcp_client_send_loop (S n) {| tc_conn := None; tc_reconnectable := true |} w tr =
+  tcp_client_send_loop n {| tc_conn := None; tc_reconnectable := true |}
+    (after_write (w_next w) (after_dial w))
+    (tr ++ [EDial (Some (w_next w)); EWrite (w_next w) false; EClose (w_next w)]).
+Proof.
+  intros Hw Hd Hs. rewrite loop_none_rec by reflexivity. rewrite (snd_dial_some _ _ _ Hd).
+  rewrite (loop_cached _ _ _ _ (w_next w)) by reflexivity.
+  rewrite (next_write_fresh _ _ _ Hw Hd), Hs, <- app_assoc. reflexivity.
+Qed.
+
+(* fresh reconnectable path: no cached connection, the dial yields a healthy connection *)
+Lemma client_fresh w s rest :
+  w_wf w -> w_dials w = Some s :: rest -> hd true s = true ->
+  tcp_client_send {| tc_conn := None; tc_reconnectable := true |} w =
+  ({| tc_conn := Some (w_next w); tc_reconnectable := true |},
+   after_write (w_next w) (after_dial w), [EDial (Some (w_next w)); EWrite (w_next w) true], true).
+Proof. intros Hw Hd Hs. unfold tcp_client_send. rewrite (loop_dial_ok _ _ _ _ _ Hw Hd Hs). reflexivity. Qed.
+
+(* stale cached connection failing once, then a healthy dialled connection *)
+Lemma client_stale d w s rest :
+  w_wf w -> next_write d w = false -> w_dials w = Some s :: rest -> hd true s = true ->
+  tcp_client_send {| tc_conn := Some d; tc_reconnectable := true |} w =
+  ({| tc_conn := Some (w_next w); tc_reconnectable := true |},
+   after_write (w_next w) (after_dial (after_write d w)),
+   [EWrite d false; EClose d; EDial (Some (w_next w)); EWrite (w_next w) true], true).
+Proof.
+  intros Hw Hn Hd Hs. unfold tcp_client_send. rewrite (loop_cached _ _ _ _ d) by reflexivity.
+  rewrite Hn. cbn [tc_reconnectable].
+  assert (Hd' : w_dials (after_write d w) = Some s :: rest) by (rewrite after_write_dials; exact Hd).
+  rewrite (loop_dial_ok _ _ _ _ _ (after_write_wf d w Hw) Hd' Hs), after_write_next. reflexivity.
+Qed.
+
+(* ================================================================== C20_failover / C20_later_direct *)
+Theorem C20_failover : forall f w p c s rest,
+  w_wf w -> fo_wf f (w_next w) ->
+  fo_primary f = Some p -> tc_conn p = Some c -> next_write c w = false ->
+  fo_secondary f = Some {| tc_conn := None; tc_reconnectable := true |} ->
+  w_dials w = Some s :: rest -> hd true s = true ->
+  failover_send f w =
+    ({| fo_primary := None;
+        fo_secondary := Some {| tc_conn := Some (w_next w); tc_reconnectable := true |} |},
+     after_write (w_next w) (after_dial (after_write c w)),
+     [EWrite c false; EClose c; EDial (Some (w_next w)); EWrite (w_next w) true], true)
+  /\ c <> w_next w.
+Proof.
+  intros f w p c s rest Hw (Hrec & Hc & _ & _) Hp Hpc Hn Hs Hd Hh.
+  specialize (Hrec _ Hp). unfold primary_id in Hc. rewrite Hp in Hc. specialize (Hc _ Hpc).
+  split; [|lia].
+  rewrite (failover_primary_fail _ _ _ _ Hp Hpc Hrec Hn), Hs.
+  assert (Hd' : w_dials (after_write c w) = Some s :: rest) by (rewrite after_write_dials; exact Hd).
+  rewrite (client_fresh _ _ _ (after_write_wf c w Hw) Hd' Hh), after_write_next. reflexivity.
+Qed.
+
+(* connection ids an event talks about *)
+Definition ev_ids (e : io_event) : list nat :=
+  match e with EWrite c _ => [c] | EDial (Some c) => [c] | EDial None => [] | EClose c => [c] end.
+
+Theorem C20_later_direct : forall f w p c s rest,
+  w_wf w -> fo_wf f (w_next w) ->
+  fo_primary f = Some p -> tc_conn p = Some c -> next_write c w = false ->
+  fo_secondary f = Some {| tc_conn := None; tc_reconnectable := true |} ->
+  w_dials w = Some s :: rest -> hd true s = true ->
+  forall f' w' tr ok, failover_send f w = (f', w', tr, ok) ->
+  forall w2, w_next w' <= w_next w2 ->          (* e.g. w2 = w' or with_plan w' pl *)
+  forall f2 w3 tr2 ok2, failover_send f' w2 = (f2, w3, tr2, ok2) ->
+  (forall e, In e tr2 -> ~ In c (ev_ids e)) /\
+  (exists b rest2, tr2 = EWrite (w_next w) b :: rest2) /\
+  (next_write (w_next w) w2 = true -> tr2 = [EWrite (w_next w) true] /\ ok2 = true /\ f2 = f').
+Proof.
+  intros f w p c s rest Hw Hf Hp Hpc Hn Hs Hd Hh f' w' tr ok E w2 Hle f2 w3 tr2 ok2 E2.
+  destruct (C20_failover _ _ _ _ _ _ Hw Hf Hp Hpc Hn Hs Hd Hh) as [E0 Hne].
+  rewrite E0 in E. inv E.
+  assert (Hd' : w_dials (after_write c w) = Some s :: rest) by (rewrite after_write_dials; exact Hd).
+  rewrite after_write_next, (proj1 (after_dial_some_next _ _ _ Hd')), after_write_next in Hle.
+  destruct Hf as (_ & Hc & _ & _). unfold primary_id in Hc. rewrite Hp in Hc. specialize (Hc _ Hpc).
+  rewrite failover_primary_none in E2 by reflexivity. cbn [fo_secondary] in E2.
+  split; [|split].
+  - destruct (tcp_client_send _ w2) as [[[s' w4] tr4] ok4] eqn:E4. inv E2.
+    apply client_shape in E4. shapes; intros e Hin; cbn in Hin;
+      repeat (destruct Hin as [Hin|Hin]; [subst e; cbn; lia|]); contradiction.
+  - destruct (tcp_client_send _ w2) as [[[s' w4] tr4] ok4] eqn:E4. inv E2.
+    apply client_shape in E4. shapes; eexists; eexists; reflexivity.
+  - intros Hn2. rewrite (client_cached_ok _ (w_next w) _ eq_refl Hn2) in E2. inv E2. auto.
+Qed.
